@@ -245,6 +245,7 @@ func propC10(w *World, r *Report) {
 	RunReadOnly(w, r, e, "readonly", []string{"(*sfnt.Font).Subset", "(*cff.Outlines).Subset", "(*glyf.Glyph).FixComponents"}, 0)
 	checkCovOrder(w, r, fns)
 	checkWorklist(w, r, e, fns)
+	checkClosureFirst(w, r)
 	RunControl(r, "worklist", "ctlClosure).close", func(cw *World, cr *Report, cf []*ssa.Function) { checkWorklist(cw, cr, nil, cf) })
 	r.Floor("worklist", 15)
 	r.Floor("gidsort", 12)
@@ -723,4 +724,54 @@ func storesFieldOf(fn *ssa.Function, par *ssa.Parameter, field string, seen map[
 		}
 	}
 	return false
+}
+
+// checkClosureFirst: SubsetGsub is the step that adds glyphs to the subset
+// (outputs of retained substitutions); the steps that only keep what refers
+// to retained glyphs — SubsetGpos (kerning and attachment among retained
+// glyphs) and SubsetGdef — must see the final list, so they come after it.
+func checkClosureFirst(w *World, r *Report) {
+	r.Rule("closurefirst: in (*Font).Subset the call of SubsetGsub (which extends the glyph list by the closure under substitutions) precedes the calls of SubsetGpos and SubsetGdef on every path (filtering before the closure drops pairs and classes of glyphs that are added later)")
+	fn := w.Func("(*sfnt.Font).Subset")
+	if fn == nil {
+		r.Fatal("(*sfnt.Font).Subset does not resolve")
+		return
+	}
+	calls := map[string]*ssa.Call{}
+	for _, b := range fn.Blocks {
+		for _, in := range b.Instrs {
+			if c, ok := in.(*ssa.Call); ok {
+				if callee := c.Call.StaticCallee(); callee != nil {
+					calls[callee.Name()] = c
+				}
+			}
+		}
+	}
+	before := func(a, b *ssa.Call) bool {
+		if a.Block() == b.Block() {
+			for _, in := range a.Block().Instrs {
+				if in == ssa.Instruction(a) {
+					return true
+				}
+				if in == ssa.Instruction(b) {
+					return false
+				}
+			}
+		}
+		return a.Block().Dominates(b.Block())
+	}
+	gsub := calls["SubsetGsub"]
+	for _, name := range []string{"SubsetGpos", "SubsetGdef"} {
+		key := r.MkKey("closurefirst", fnName(fn), name+" after SubsetGsub")
+		c := calls[name]
+		switch {
+		case gsub == nil || c == nil:
+			r.Fail("closurefirst", key, w.Pos(fn.Pos()), "the calls of SubsetGsub / "+name+" were not found in Subset", nil)
+		case before(gsub, c):
+			r.OK("closurefirst", key, w.Pos(c.Pos()), "runs on the final glyph list")
+		default:
+			r.Fail("closurefirst", key, w.Pos(c.Pos()), name+" runs before SubsetGsub has added the glyphs produced by retained substitutions: positioning data and classes of those glyphs are dropped from the subset", nil)
+		}
+	}
+	r.Floor("closurefirst", 2)
 }
